@@ -106,6 +106,12 @@ func logClose(err error, pw *io.PipeWriter) {
 func (r *request) buildHTTP(mediaType, basePath string, producers map[string]runtime.Producer, registry strfmt.Registry, auth runtime.ClientAuthInfoWriter) (*http.Request, error) { //nolint:gocyclo,maintidx
 	// build the data
 	if err := r.writer.WriteToRequest(r, registry); err != nil {
+		// the files handed over so far will never be sent: do not leave them open
+		for _, ff := range r.fileFields {
+			for _, ffi := range ff {
+				ffi.Close()
+			}
+		}
 		return nil, err
 	}
 
